@@ -197,6 +197,10 @@ pub struct ProgStats {
     pub fired: Vec<(OpClass, SeamKind, FaultKind)>,
     pub errors_dispatched: u64,
     pub stopped_early: Option<String>,
+    pub killed: bool,
+    pub writes_after_kill: bool,
+    /// instruction stamps of the file and file-system operations (only when sites are collected)
+    pub io_instr: Vec<u64>,
 }
 
 pub struct CaseRun {
@@ -251,7 +255,7 @@ pub fn run_case(
         let em = &prep.emitted[pi];
         let faults: Vec<Fault> = plan
             .iter()
-            .filter(|p| p.prog == pi && p.fault.kind != "quota")
+            .filter(|p| p.prog == pi && p.fault.kind != "quota" && p.fault.kind != "kill")
             .map(|p| p.fault.to_fault())
             .collect();
         // a quota on the bytes the file system accepts during this program run
@@ -264,6 +268,11 @@ pub fn run_case(
             world0.code_lines.insert(*row, (*c0, *c1));
         }
         world0.fs_quota = quota;
+        // a crash point: the run is killed when this many instructions have been executed
+        world0.kill_at = plan
+            .iter()
+            .find(|p| p.prog == pi && p.fault.kind == "kill")
+            .map(|p| p.fault.arg as u64);
         let world = world0.shared();
         let r = run_program(&prep.programs[pi], &world, BUDGET);
         let w = world.borrow();
@@ -280,6 +289,24 @@ pub fn run_case(
                 .collect(),
             errors_dispatched: r.monitor.error_dispatches,
             stopped_early: None,
+            killed: w.killed,
+            writes_after_kill: w.writes_after_kill_discarded,
+            io_instr: if collect_sites {
+                use crate::world::EventKind as K;
+                w.log
+                    .iter()
+                    .filter(|ev| match &ev.kind {
+                        K::Write { seam, .. } | K::Flush { seam, .. } | K::Seek { seam, .. } => {
+                            seam.kind() == SeamKind::File
+                        }
+                        K::Open { .. } | K::Close { .. } | K::Remove { .. } | K::Rename { .. } => true,
+                        _ => false,
+                    })
+                    .map(|ev| ev.instr)
+                    .collect()
+            } else {
+                vec![]
+            },
         };
         if let Outcome::LintError(_) = r.outcome {
             out.rejected_by_linter = true;
